@@ -14,20 +14,28 @@ def stage_caps_correspondence(ctx):
     goodwe = SI.reload_goodwe()
     import goodwe.model as MD
     cases, descr = [], []
-    for tag, serial, rated, sub, bm in IM.et_configs(ctx.rng, ctx.deep):
+    configs = [(cfg, None) for cfg in IM.et_configs(ctx.rng, ctx.deep)]
+    # the same with one request lost at every position of the first or the second call (exception paths of the bookkeeping)
+    lossy = [cfg for cfg in IM.et_configs(ctx.rng, False)]
+    for cfg in lossy[:: (3 if not ctx.deep else 1)]:
+        for call in (0, 1):
+            for k in range(7): configs.append((cfg, (call, k)))
+    for (tag, serial, rated, sub, bm), loss in configs:
         inv, sim = IM.make_et(goodwe, serial, rated, sub, bm, seed=ctx.rng.randrange(1 << 30))
         asyncio.run(inv.read_device_info())
         two = MD.is_2_battery(inv) or rated >= 25000
         big = MD.is_745_platform(inv) or rated >= 15000
-        got, envs = [], []
+        got, envs, losses = [], [], []
         for call in range(3):
             bmz = (bm == 0) if call < 2 else False
             sim.set(35184, 0 if bmz else 2)
             n0 = len(sim.log)
+            sim.lose = {n0 + loss[1]} if loss and loss[0] == call else set()
             try:
                 asyncio.run(inv.read_runtime_data()); ok = 1
             except Exception:     # noqa
                 ok = 0
+            sim.lose = set()
             reqs = []
             for e in sim.log[n0:]:
                 if e['reg'] == 36000: reqs.append({125: 3, 58: 4, 45: 5}.get(e['count'], 9))
@@ -36,13 +44,12 @@ def stage_caps_correspondence(ctx):
             lvl = 0 if any(o >= 36058 for o in offs) else 1 if any(o >= 36045 for o in offs) else 2
             got += [len(reqs)] + reqs + [ok] + [int(inv._has_battery), int(inv._has_battery2), int(inv._has_meter_extended), int(inv._has_meter_extended2), int(inv._has_mppt), lvl]
             envs.append(f'(mkEnv {b("battery" in sub)} {b("battery2" in sub)} {b("meter_ext2" in sub or "meter_ext" in sub)} {b("meter_ext" in sub)} {b("mppt" in sub)} {b(bmz)})')
-        # the extended window (36000..36057) is refused when its own tail is refused; the extended-2 window when either tail is
-        envs = [e for e in envs]
+            losses.append(f'(Some {loss[1]}%nat)' if loss and loss[0] == call else 'None')
         term = (f'map Z.of_nat (let c0 := after_device_info {b(two)} {b(big)} in '
-                f'let r1 := read_runtime_data c0 {envs[0]} in let r2 := read_runtime_data (snd r1) {envs[1]} in let r3 := read_runtime_data (snd r2) {envs[2]} in '
-                f'enc_call r1 ++ enc_call r2 ++ enc_call r3)')
-        cases.append((term, got)); descr.append(dict(model=tag, serial=serial, rated_power=rated, refused=list(sub), battery_mode=bm))
-        st.case((serial, rated, sub, bm), sample=dict(config=descr[-1], observed=got) if len(st.samples) < 3 else None)
+                f'let r1 := read_runtime_data c0 {envs[0]} {losses[0]} in let r2 := read_runtime_data (snd r1) {envs[1]} {losses[1]} in '
+                f'let r3 := read_runtime_data (snd r2) {envs[2]} {losses[2]} in enc_call r1 ++ enc_call r2 ++ enc_call r3)')
+        cases.append((term, got)); descr.append(dict(model=tag, serial=serial, rated_power=rated, refused=list(sub), battery_mode=bm, lost_request=loss))
+        st.case((serial, rated, sub, bm, loss), sample=dict(config=descr[-1], observed=got) if len(st.samples) < 3 else None)
     bad, err = C.eval_cases('c15caps', 'ETCaps', cases, shard=300)
     if err: st.violation('caps-eval', f'model evaluation failed: {err[:300]}', dict(error=err), no_input=True)
     for i in bad[:6]:
